@@ -215,4 +215,5 @@ Inductive op :=
 | AddInput (n a : nid)
 | RemoveInput (n a : nid)
 | Stabilize (p : plan)
-| StabilizeCancelled.                   (* Stabilize with an already cancelled context *)
+| StabilizeCancelled                    (* Stabilize with an already cancelled context *)
+| ParStabilize (p : plan).              (* ParallelStabilize; the model runs each height block in queue order *)                   (* Stabilize with an already cancelled context *)
